@@ -554,6 +554,20 @@ def check_asdf(S):
     if not (isinstance(c.key, ast.Name) and c.key.id == kname and _plain_to_dict(c.value)
             and isinstance(c.value.func.value, ast.Name) and c.value.func.value.id == vname):
         fail(c, "to_asdf: every entry must be  key: value.to_dict()")
+    # ... read from dct["data"]["data"] and stored back under the same key (directly or through one local each)
+    def _norm(e):
+        return ast.unparse(e).replace(" ", "").replace('"', "'")
+    local_val = {n.targets[0].id: n.value for n in ast.walk(ta)
+                 if isinstance(n, ast.Assign) and len(n.targets) == 1 and isinstance(n.targets[0], ast.Name)}
+    it = g.iter.func.value
+    if isinstance(it, ast.Name) and it.id in local_val:
+        it = local_val[it.id]
+    if _norm(it) != "dct['data']['data']":
+        fail(c, "to_asdf: the comprehension must read dct['data']['data']")
+    back = [n for n in ast.walk(ta) if isinstance(n, ast.Assign) and len(n.targets) == 1
+            and _norm(n.targets[0]) == "dct['data']['data']"]
+    if len(back) != 1 or not (back[0].value is c or (isinstance(back[0].value, ast.Name) and local_val.get(back[0].value.id) is c)):
+        fail(ta, "to_asdf: the converted processed data must be stored back as dct['data']['data']")
     # Scene.to_dict / Scene.from_dict: every group, values as lists, and back
     std = S.func("pyxel/data_structure/scene.py", "to_dict", cls="Scene")
     comps = [n for n in ast.walk(std) if isinstance(n, ast.DictComp)]
